@@ -54,7 +54,11 @@ def run(tier):
     preg = tlc.run_tlc("MC_PagerProto", cfg="MC_PagerProto_regression", workers=1, coverage=False, timeout=300)
     if preg.violated != "NoEarlyExit":
         raise core.ToolError("MC_PagerProto_regression (exit on the first failed write) did not violate NoEarlyExit")
-    log(f"[{PID}] fault space enumerated by TLC: {len(scenarios)} scenarios ({mc.distinct} states)")
+    # a wrapped command that complains a lot (4 000 lines, far more than a pipe holds, on stderr before it writes to stdout): the
+    # scenarios in which delta runs a command and the consumer stays are run a second time with such a command
+    n_plain = len(scenarios)
+    scenarios = scenarios + [sc for sc in scenarios if sc["mode"] == "wrap" and sc["quit"] == 0]
+    log(f"[{PID}] fault space enumerated by TLC: {n_plain} scenarios ({mc.distinct} states), {len(scenarios) - n_plain} of them repeated with a noisy command")
     work = os.path.join(core.scratch(), "c18")
     os.makedirs(work, exist_ok=True)
     pagers = os.path.join(core.FIXBIN, "pagers")
@@ -101,6 +105,8 @@ def run(tier):
         else:
             env["STUB_OUT"] = big_grep_out if sc["big"] else grep_out
             env["STUB_EXIT"] = str(sc["status"])
+            if idx >= n_plain:
+                env["STUB_ERR_LINES"] = "4000"
             args += ["git", "grep", "-n", "foo"]
         if sc["out"] == "pager":
             pre = ["--paging", "always"]
@@ -160,7 +166,7 @@ def run(tier):
         ref_writes = int(open(wlog).read().split()[-1]) if os.path.exists(wlog) else 0
         if os.path.exists(wlog):
             os.unlink(wlog)
-        return sc, r, plog, ref, ref_writes
+        return dict(sc, _idx=idx), r, plog, ref, ref_writes
 
     res = [x for x in core.pmap(one, list(enumerate(scenarios)), jobs=8) if x is not None]
     events = []
@@ -179,6 +185,10 @@ def run(tier):
                        "pagerDoneFirst": "done" in plog and "delta-exit" in plog and plog.index("done") < plog.index("delta-exit"),
                        "plog": [l.split(" ")[0] for l in plog if l.split(" ")[0] in ("start", "got", "done", "delta-exit")],
                        "allowed": allowed_logs.get((sc["quit"] > 0, bool(sc["stay"])), [])})
+    for i, (sc, r, plog, ref, ref_writes) in enumerate(res):
+        if sc.get("_idx", 0) >= n_plain and not r.timed_out and r.err.count(b"\n") < 4000:
+            V.violation(f"stderr-lost:{sc['out']}:{sc['status']}", f"of the 4000 lines the wrapped command wrote to stderr only {r.err.count(chr(10).encode())} "
+                        f"arrived (output to {sc['out']}, child status {sc['status']})", {"scenario": sc, "run": r.to_json()})
     failed, tr = tlc.validate_trace("Trace_Pager", events)
     log(f"[{PID}] {len(events)} scenario runs judged by TLC (Trace_Pager), {len(failed)} rejected")
     for f in failed:
